@@ -1,0 +1,73 @@
+//go:build verif
+// +build verif
+
+package sessions
+
+// Contracts for the deductive verifier in /verif (comment-only file, build tag `verif`).
+
+// ---- mount points (C17) -------------------------------------------------------------------
+// prefixed(mp, t, out): out is exactly mp ++ "/" ++ t
+//@ pred prefixed(mp string, t []byte, out []byte) := len(out) == len(mp) + 1 + len(t)
+//@     && (forall i int :: {out[i]} 0 <= i && i < len(mp) ==> out[i] == mp[i])
+//@     && out[len(mp)] == 47
+//@     && (forall j int :: {t[j]} 0 <= j && j < len(t) ==> out[len(mp) + 1 + j] == t[j])
+
+//@ func prefixMountPoint(mountPoint string, t []byte) (out []byte)
+//@   ensures prefixed(mountPoint, t, out) && fresh(out) && out != nil
+//@   modifies newrows(t)
+
+// trimming is only defined on topics that carry the prefix: the caller has to know that (C17)
+//@ func trimMountPoint(mountPoint string, t []byte) (out []byte)
+//@   requires len(t) > len(mountPoint)
+//@   ensures len(out) == len(t) - len(mountPoint) - 1
+//@   ensures forall j int :: {out[j]} 0 <= j && j < len(out) ==> out[j] == t[len(mountPoint) + 1 + j]
+//@   modifies nothing
+
+//@ func (*Session).PrefixMountPoint(topic []byte) (out []byte)
+//@   requires s != nil
+//@   ensures prefixed(s.mountPoint, topic, out) && fresh(out) && out != nil
+//@   modifies newrows(topic)
+//@ func (*Session).TrimMountPoint(topic []byte) (out []byte)
+//@   requires s != nil && len(topic) > len(s.mountPoint)
+//@   ensures len(out) == len(topic) - len(s.mountPoint) - 1
+//@   ensures forall j int :: {out[j]} 0 <= j && j < len(out) ==> out[j] == topic[len(s.mountPoint) + 1 + j]
+//@   modifies nothing
+
+// ---- the filters a session remembers for teardown (C11) -------------------------------------
+// a duplicate-free set of byte strings
+//@ pred topic_in(s *Session, x string) := exists i int :: {s.topics[i]} 0 <= i && i < len(s.topics) && string(s.topics[i]) == x
+//@ pred topics_nodup(s *Session) := forall i int, j int :: {s.topics[i], s.topics[j]} 0 <= i && i < j && j < len(s.topics)
+//@        ==> string(s.topics[i]) != string(s.topics[j])
+
+//@ func (*Session).AddTopic(t []byte)
+//@   requires s != nil && topics_nodup(s)
+//@   ensures topics_nodup(s)
+//@   ensures forall x string :: topic_in(s, x) <==> (old(topic_in(s, x)) || x == string(t))
+//@   modifies s.topics, elems(s.topics)
+//@ loop (*Session).AddTopic#1
+//@   invariant -1 <= rangeindex && rangeindex < len(s.topics)
+//@   invariant forall k int :: {s.topics[k]} 0 <= k && k <= rangeindex ==> string(s.topics[k]) != string(t)
+
+//@ func (*Session).GetTopics() (r [][]byte)
+//@   requires s != nil
+//@   ensures r == s.topics
+//@   modifies nothing
+
+//@ func (*Session).RemoveTopic(new []byte)
+//@   requires s != nil && topics_nodup(s)
+//@   ensures topics_nodup(s)
+//@   ensures forall x string :: topic_in(s, x) <==> (old(topic_in(s, x)) && x != string(new))
+//@   modifies s.topics, elems(s.topics)
+// The loop ranges over the slice as it was on entry while it shrinks s.topics; at most one element can match
+// because the set is duplicate-free, and that element is overwritten by the last one.
+//@ loop (*Session).RemoveTopic#1
+//@   invariant -1 <= rangeindex && rangeindex < len(old(s.topics))
+//@   invariant base(s.topics) == base(old(s.topics)) && off(s.topics) == off(old(s.topics))
+//@   invariant len(s.topics) == len(old(s.topics)) || len(s.topics) == len(old(s.topics)) - 1
+//@   invariant len(s.topics) == len(old(s.topics)) ==>
+//@        (forall k int :: {s.topics[k]} 0 <= k && k < len(old(s.topics)) ==> s.topics[k] == old(s.topics[k]))
+//@     && (forall k int :: {old(s.topics[k])} 0 <= k && k <= rangeindex ==> string(old(s.topics[k])) != string(new))
+//@   invariant len(s.topics) == len(old(s.topics)) - 1 ==>
+//@        (exists m int :: {old(s.topics[m])} 0 <= m && m <= rangeindex && string(old(s.topics[m])) == string(new))
+//@     && (forall k int :: {s.topics[k]} {old(s.topics[k])} 0 <= k && k < len(old(s.topics)) ==>
+//@           s.topics[k] == (if string(old(s.topics[k])) == string(new) then old(s.topics[len(s.topics)]) else old(s.topics[k])))
